@@ -36,6 +36,9 @@ DEFAULT_WEIGHTS = {
 
 READ_PATHS = ["/", "/user", "/user/", "/user/calendars", "/user/calendars/", "/user/contacts/", "/user/calendars/c1/", "/user/calendars/c1", "/user/calendars/c2/", "/user/x1/", "/user/calendars/b1/", "/user/calendars/c1/n1/", "/user/contacts/a1/"]
 
+# media types are case-insensitive, white space may precede the parameters, and there may be several parameters
+CAL_CTYPES = ["text/calendar", "text/calendar", "text/calendar", "text/calendar; charset=utf-8", "text/calendar;charset=utf-8", "TEXT/CALENDAR", "Text/Calendar; charset=UTF-8", "text/calendar ; charset=utf-8", "text/calendar; charset=utf-8; component=VEVENT"]
+CARD_CTYPES = ["text/vcard", "text/vcard", "text/vcard; charset=utf-8", "TEXT/VCARD", "text/vcard ; charset=utf-8", "text/vcard; charset=utf-8; version=4.0"]
 CAL_SLOTS = ["c1", "c1", "c1", "c2", "b1", "n1", "h1", "x1"]
 AB_SLOTS = ["a1", "a1", "h2"]
 
@@ -145,7 +148,7 @@ def program(draw, weights=None, min_steps=8, max_steps=30, prefixes=PREFIXES, se
                     raw = draw(st.sampled_from(cal_bodies))["raw"] if draw(st.integers(0, 3)) else draw(gen.calendar_object())["raw"]
                 else:
                     raw = draw(st.sampled_from(bad_cal))[1]
-                ctype = draw(st.sampled_from(["text/calendar", "text/calendar", "text/calendar; charset=utf-8"]))
+                ctype = draw(st.sampled_from(CAL_CTYPES))
             elif fam == "card":
                 slot = draw(st.sampled_from(AB))
                 name = draw(st.sampled_from(vcf_names))
@@ -153,7 +156,7 @@ def program(draw, weights=None, min_steps=8, max_steps=30, prefixes=PREFIXES, se
                     raw = draw(st.sampled_from(card_bodies))["raw"]
                 else:
                     raw = draw(st.sampled_from(bad_card))[1]
-                ctype = draw(st.sampled_from(["text/vcard", "text/vcard; charset=utf-8"]))
+                ctype = draw(st.sampled_from(CARD_CTYPES))
             else:
                 slot = draw(st.sampled_from(["x1", "h1", "c1"]))
                 name = draw(st.sampled_from(other_names))
